@@ -114,6 +114,10 @@ func cands(te TE) []val.V {
 		if len(es) >= 3 {
 			out = append(out, val.L(es[2]))
 		}
+		// element type a union: the elements of a list choose their alternative independently
+		for _, l := range mixedLists(te.A[0]) {
+			out = append(out, val.L(l...))
+		}
 		return out
 	case kMap:
 		ks, vs := cands(te.A[0]), cands(te.A[1])
@@ -130,6 +134,20 @@ func cands(te TE) []val.V {
 		}
 		if len(ks) >= 3 {
 			out = append(out, val.M([2]val.V{ks[2], vs[0]}))
+		}
+		// value type a union: entries with values of different alternatives (keys in rotation)
+		if len(ks) >= 2 {
+			for _, l := range mixedLists(te.A[1]) {
+				var kv [][2]val.V
+				for i, v := range l {
+					if i < len(ks) {
+						kv = append(kv, [2]val.V{ks[i], v})
+					}
+				}
+				if len(kv) >= 2 {
+					out = append(out, val.M(kv...))
+				}
+			}
 		}
 		return out
 	case kStruct:
@@ -151,6 +169,59 @@ func cands(te TE) []val.V {
 		return capV(out, maxCands)
 	}
 	return nil
+}
+
+// mixedLists returns, for an element type that is a union of two or more alternatives, element
+// lists of length two and three whose elements are members (by construction) of DIFFERENT
+// alternatives - per pair of alternatives both orders, then three alternatives or two and one - and
+// the homogeneous lists of two members of one alternative. Of every alternative a candidate is
+// preferred that no earlier alternative offers, so that /foo/x does not stand for both /name and /foo.
+func mixedLists(elem TE) [][]val.V {
+	if elem.K != kUnion || len(elem.A) < 2 {
+		return nil
+	}
+	var per [][]val.V // per alternative: its candidates, a distinguishing one first
+	taken := map[string]bool{}
+	for _, a := range elem.A {
+		cs := append([]val.V{}, cands(a)...)
+		if len(cs) == 0 {
+			continue
+		}
+		for i, c := range cs {
+			if !taken[c.Key()] {
+				cs[0], cs[i] = cs[i], cs[0]
+				break
+			}
+		}
+		taken[cs[0].Key()] = true
+		per = append(per, cs)
+	}
+	var out [][]val.V
+	for i := 0; i < len(per); i++ {
+		for j := i + 1; j < len(per); j++ {
+			a, b := per[i][0], per[j][0]
+			out = append(out, []val.V{a, b}, []val.V{b, a})
+			if len(per) == 2 {
+				out = append(out, []val.V{a, b, a}, []val.V{b, b, a})
+			}
+		}
+	}
+	if len(per) >= 3 {
+		out = append(out, []val.V{per[0][0], per[1][0], per[2][0]}, []val.V{per[2][0], per[0][0], per[1][0]})
+	}
+	for _, cs := range per {
+		if len(cs) >= 2 {
+			out = append(out, []val.V{cs[0], cs[1]})
+		}
+	}
+	return capLists(out, 8)
+}
+
+func capLists(ls [][]val.V, n int) [][]val.V {
+	if len(ls) > n {
+		return ls[:n]
+	}
+	return ls
 }
 
 // structCands builds struct constants with every declared field (required or opt), optionally
